@@ -106,9 +106,10 @@ SAFE_METHODS = {
 
 
 class Interp:
-    def __init__(self, isa=None, stubs=None, max_steps=20000):
+    def __init__(self, isa=None, stubs=None, max_steps=20000, methods=None):
         self.isa = isa or {}          # kind -> set of base kinds
         self.stubs = stubs or {}      # dotted callee text -> python callable(interp, *args, **kwargs)
+        self.methods = methods or {}  # kind -> {method name: FunctionDef}: methods of the analysed class, interpreted when a stand-in is asked for them
         self.steps = 0
         self.max_steps = max_steps
         self.trace = []               # (callee text, args, kwargs) of stub calls
@@ -291,16 +292,7 @@ class Interp:
             if d in self.stubs and not callable(self.stubs[d]):
                 return self.stubs[d]
             base = self.ev(e.value, env)
-            if isinstance(base, ClassRef):
-                return ClassRef(f'{base.name}.{e.attr}')
-            if isinstance(base, Obj):
-                try:
-                    return getattr(base, e.attr)
-                except AttributeError:
-                    raise AnalysisError(f'interpreter: stand-in {base!r} has no attribute `{e.attr}` (`{d}`)')
-            if isinstance(base, dict) and e.attr in base:
-                return base[e.attr]
-            return BoundMethod(base, e.attr)
+            return self._getattr(base, e.attr, d)
         if isinstance(e, ast.Subscript):
             v = self.ev(e.value, env)
             if isinstance(e.slice, ast.Slice):
@@ -391,6 +383,20 @@ class Interp:
                                  lineno=e.lineno, col_offset=0)
             return Closure(fn, env, self)
         raise AnalysisError(f'interpreter: unmodelled expression `{norm(e)[:80]}`')
+
+    def _getattr(self, base, attr, d):
+        if isinstance(base, ClassRef):
+            return ClassRef(f'{base.name}.{attr}')
+        if isinstance(base, Obj):
+            if attr in base.attrs:
+                return base.attrs[attr]
+            m = self.methods.get(base.kind, {}).get(attr)
+            if m is not None:
+                return lambda *a, **k: self.call_function(m, [base] + list(a), dict(k), Env())
+            raise AnalysisError(f'interpreter: stand-in {base!r} has no attribute `{attr}` (`{d}`)')
+        if isinstance(base, dict) and attr in base:
+            return base[attr]
+        return BoundMethod(base, attr)
 
     def _comp(self, gens, i, env, emit):
         if i == len(gens):
